@@ -199,7 +199,7 @@ def fuzz_cli_job(job):
     import ws, scen
     sc, level, threads = job
     snaps = []
-    for F in (0, 1, 2, 3):
+    for F in (0, 1, 2, 3, 18446744073709551615):
         w = ws.mkws('fz')
         try:
             scen.materialise(w, sc['tree0'], sc['series'], [('-R' if pt.get('rev') else '') for pt in sc['series']])
@@ -245,14 +245,14 @@ def run_fuzz_cli(res, tier, work):
         jobs.append((sc, 1 + li % 2, 1 + li % 3))
     with Pool(12) as pool:
         outs = pool.map(fuzz_cli_job, jobs, chunksize=4)
-    succ = {0: 0, 1: 0, 2: 0, 3: 0}
+    succ = {0: 0, 1: 0, 2: 0, 3: 0, 4: 0}
     for (sc, level, threads), (probs, rcs) in zip(jobs, outs):
         for F, rc in enumerate(rcs):
             if rc == 0:
                 succ[F] += 1
         for cat, msg in probs:
             res.violation(cat, msg + ' (context perturbed to need fuzz %d, threads %d)' % (level, threads), {'tree0': sc['tree0'], 'series': sc['series'], 'perturbation_level': level, 'threads': threads})
-    res.cov['parts']['fuzz-cli-scenarios'].update({'workspaces': len(jobs), 'runs': len(jobs) * 4, 'complete_pushes_by_fuzz_limit': succ})
+    res.cov['parts']['fuzz-cli-scenarios'].update({'workspaces': len(jobs), 'runs': len(jobs) * 5, 'limits': [0, 1, 2, 3, 'usize::MAX'], 'complete_pushes_by_fuzz_limit': succ})
     res.cov['traces_validated_against_impl'] += len(jobs) * 4
     res.cov['evaluations'] += len(jobs) * 4
     import ws
